@@ -404,3 +404,77 @@ func AL(rc *RC, floor int) {
 		}
 	}
 }
+
+// O12: the scratch header of a scalar operand never aliases the operand. The kernels compute
+// INTO the header when both sides have one element (and the generated methods then copy the
+// result where it belongs), so a header that points at the memory of a scalar held in a tensor
+// turns an operand into a destination: Add(scalarTensor, [3], UseUnsafe()) left 13 in the
+// scalar (finding 84). Every path of scalarToHeader therefore hands out a buffer taken from the
+// scalar pool (allocScalar / scalarPool(..).Get()), with the newAlloc flag set so that it is
+// returned; storage.FromMemory(..) may only be the source of a copy.
+func O12(rc *RC) {
+	rc.S.Declare("O12", "scalar scratch headers own their buffer: on every path of scalarToHeader the header's Raw is a buffer from the scalar pool and newAlloc is true (memory of a scalar tensor is copied, never aliased)", 1)
+	fi := anchor(rc, "O12", "tensor.scalarToHeader")
+	if fi == nil {
+		return
+	}
+	pos := rc.P.Pos(fi.Decl.Pos())
+	c := ir.NewCanon(rc.P.Fset, fi.Pkg.TypesInfo, ir.Options{ParamNames: true, KeepNames: true, NoSubst: true})
+	tree := c.Func(fi.Decl)
+	paths, ok := ir.EnumPaths(tree, 500)
+	if !ok {
+		rc.S.Undec("O12", fi.Key, pos, "too many paths")
+		return
+	}
+	pooled := regexp.MustCompile(`^(allocScalar\(|scalarPool\(.*\)\.Get\(\))`)
+	var bad []string
+	n := 0
+	for _, p := range paths {
+		if p.Exit == "panic" {
+			continue
+		}
+		n++
+		def := map[string]string{}
+		raw := ""
+		flag := ""
+		for _, st := range p.Steps {
+			if st.Kind == "store" || st.Kind == "let" {
+				def[st.Target] = st.Value
+				if strings.HasSuffix(st.Target, ".Raw") {
+					raw = st.Value
+				}
+				if st.Target == "$ret1" {
+					flag = st.Value
+				}
+			}
+		}
+		if p.Exit == "return" && strings.TrimSpace(p.Ret) != "" {
+			parts := splitTopLevel(p.Ret)
+			if len(parts) == 2 {
+				flag = strings.TrimSpace(parts[1])
+			}
+		}
+		// resolve the Raw value through local definitions
+		src := raw
+		for i := 0; i < 4; i++ {
+			if d, isLocal := def[src]; isLocal {
+				src = d
+			} else {
+				break
+			}
+		}
+		switch {
+		case raw == "":
+			bad = append(bad, fmt.Sprintf("the path [%s] hands out a header without a buffer", strings.Join(p.Guards, " && ")))
+		case !pooled.MatchString(src):
+			bad = append(bad, fmt.Sprintf("on the path [%s] the header's Raw is %s, which is not a buffer from the scalar pool (the operand's own memory would be written by the kernels)", strings.Join(p.Guards, " && "), src))
+		case flag != "true" && def[flag] != "true":
+			bad = append(bad, fmt.Sprintf("on the path [%s] the pooled buffer is handed out with newAlloc = %q: it would never be returned", strings.Join(p.Guards, " && "), flag))
+		}
+	}
+	if len(bad) > 0 {
+		rc.S.Viol("O12", fi.Key, pos, strings.Join(uniq(bad), "; ")).Sig = fmt.Sprintf("%d aliasing path(s)", len(uniq(bad)))
+	} else {
+		rc.S.Ok("O12", fi.Key, pos, fmt.Sprintf("%d paths, each with a pooled buffer and newAlloc = true", n))
+	}
+}
